@@ -454,7 +454,7 @@ func (w *world) dial() (*refctl.Conn, error) {
 	if err != nil {
 		return nil, err
 	}
-	c.Timeout = 10 * time.Second // watchdog only: a missing answer is decided by the bounded-progress rule
+	c.Timeout = 20 * time.Second // watchdog only: a missing answer is decided by the bounded-progress rule
 	return c, nil
 }
 
@@ -597,6 +597,20 @@ func (w *world) finishSetupContinuation(cs *connState, s *refctl.Setup, rejected
 			What: fmt.Sprintf("after the hostile message a correct pair-setup with the right code on the same connection failed at M6 (%d rejected start(s) before): ", rejected) + fmt.Sprintf(format, a...)}
 	}
 	a := readAnswer(cs.c)
+	if a.kind == "timeout" {
+		// the watchdog alone decides nothing; an answer that arrives while the rule is applied is used
+		if un, late, perr := w.a.Unanswered(cs.c); perr == nil && !un && late != nil && late.Status >= 200 {
+			a = answer{kind: "answered", m: late}
+		} else if perr == nil && un {
+			v := &viol{Sig: "wedged:pair-setup:same-connection:setup.M6:unanswered", Wedged: true,
+				What: fmt.Sprintf("after the hostile message a correct pair-setup on the same connection got no answer to M5 while 50 round trips on other connections completed (%d rejected start(s) before)", rejected)}
+			return v
+		} else if perr != nil {
+			return &viol{Incon: "bounded-progress probe failed: " + perr.Error()}
+		} else {
+			a = answer{kind: "closed", err: io.EOF}
+		}
+	}
 	if a.kind != "answered" {
 		return w.failure(cs.c, "wedged:pair-setup:same-connection", fmt.Sprintf("after the hostile message a correct pair-setup on the same connection got no well-formed answer to M5 (%d rejected start(s) before)", rejected),
 			&refctl.StageError{Stage: "setup.M6", Why: "no answer", Transport: a.err})
